@@ -61,12 +61,38 @@ def gate_emitter(rng):
     return {"nodes": nodes, "bound": {}, "entrypoints": None, "selected": None}, {"c": rng.randint(0, 1), "x": 3}
 
 
+def nested_signal(rng):
+    """The signal is emitted by a node INSIDE a nested graph (optionally a mapping one, optionally two levels down, optionally
+    with the wrapper's data output renamed); a node of the enclosing graph waits for it."""
+    F = lambda name, ins, outs, **kw: dict({"name": name, "kind": "func", "inputs": ins, "outputs": outs, "emit": [], "wait_for": [],  # noqa: E731
+                                           "defaults": {}, "fn": ["sym", name]}, **kw)
+    inner_nodes = [F("work", ["x"], ["r"], emit=["done"])]
+    if rng.random() < 0.5:
+        inner_nodes.append(F("side", ["x"], ["s"]))
+    inner = {"nodes": inner_nodes, "bound": {}, "entrypoints": None, "selected": None, "name": "w_g"}
+    w = {"name": "w", "kind": "graph", "graph": inner, "inputs": [], "outputs": [], "in_hist": [], "out_hist": []}
+    mapped = rng.random() < 0.4
+    if rng.random() < 0.3:
+        outer_inner = {"nodes": [w], "bound": {}, "entrypoints": None, "selected": None, "name": "v_g"}
+        w = {"name": "v", "kind": "graph", "graph": outer_inner, "inputs": [], "outputs": [], "in_hist": [], "out_hist": []}
+    if rng.random() < 0.3:
+        w["out_hist"] = [{"r": "r2"}]
+    if mapped:
+        w["map_over"], w["map_mode"] = ["x"], "zip"
+    nodes = [w, F("after", ["y"], ["a_out"], wait_for=["done"])]
+    if rng.random() < 0.5:
+        nodes.append(F("second", ["y"], ["b_out"], wait_for=["done"]))
+    rng.shuffle(nodes)
+    inputs = {"x": [1, 2] if mapped else 1, "y": 5}
+    return {"nodes": nodes, "bound": {}, "entrypoints": None, "selected": None}, inputs
+
+
 def oracle(g, obs):
     bad = []
     nodes = {n["name"]: n for n in g["nodes"]}
     producers = {}
     for n in g["nodes"]:
-        for o in pdl.node_outputs(n):
+        for o in (gen.iface(n)[1] if n["kind"] == "graph" else pdl.node_outputs(n)):
             producers.setdefault(o, set()).add(n["name"])
     open_spans, ends, last_start = {}, [], {}
     t = 0
@@ -126,6 +152,9 @@ def run(ctx):
         for N in ([0, 1, 3, 5] if ctx.quick() else range(0, 9)):
             g = gen.gen_loop(rng, m=m, N=N, wait_sync=True, exit_node=False)
             add(g, {"x": 0}, {"family": "L2", "m": m, "N": N})
+    for _ in range(ctx.n(12, 120)):
+        g, inputs = nested_signal(rng)
+        add(g, inputs, {"family": "nested_signal"})
     nontrivial = set()
     dist = {}
 
@@ -142,10 +171,18 @@ def run(ctx):
         log = pdl.c_log(N_, obs["log"])
         produced = {o for n in g["nodes"] for o in pdl.node_outputs(n)}
         waiter_default = any(n.get("wait_for") and any(p in produced for p in n.get("defaults", {})) for n in g["nodes"])
-        if md["family"] in ("emit_dag", "stages") and obs["status"] == "completed" and not waiter_default:
+        if md["family"] in ("emit_dag", "stages") and obs["status"] == "completed":
             # liveness on acyclic gate-free programs: the dependency-order SPEC (wait_for included) decides who runs
             batch.add(i, 1, "Bool.eqb", f"runs_iff_evaluable $ft $gt $g $pv {log}", "true")
             batch.add(i, 2, "dictV_eqb", "denote_values (exec_basic $ft $gt) $g $pv", pdl.c_dictval(N_, obs["values"]))
+        if md["family"] == "nested_signal":
+            if obs["status"] != "completed":
+                msgs.append(f"run ended {obs['status']} ({obs.get('error_repr')})")
+            for nm in ("after", "second"):
+                if any(n["name"] == nm for n in g["nodes"]) and count(obs, nm) != 1:
+                    msgs.append(f"{nm} waits for a signal emitted inside a nested graph that completed, and ran {count(obs, nm)} times")
+            if "done" in obs["values"]:
+                msgs.append(f"the ordering-only name 'done' is among the returned values: {obs['values']['done']!r}")
         if md["family"] == "gate_emitter" and obs["status"] == "completed" and count(obs, "after") != 1:
             msgs.append(f"the node waiting on the gate's signal ran {count(obs, 'after')} times")
         if md["family"] == "L2" and obs["status"] == "completed":
@@ -166,7 +203,8 @@ def run(ctx):
         evaluations=len(cases), coq_checks=res["n"], distinct_nontrivial=len(nontrivial),
         rule="DAGs with emit/wait_for pairs (several waiters per signal), two ordered stages emitting one signal with a waiter fed by a side "
              "chain of length 0-3, a cycle whose waiter awaits two signals one of which is produced every other iteration, a gate as "
-             "producer, loops whose gate waits on the end-of-iteration signal; both runners, adversarial completion orders; "
+             "producer, loops whose gate waits on the end-of-iteration signal, signals emitted inside nested graphs (plain, mapping, two levels, "
+             "renamed data output) awaited in the enclosing graph; both runners, adversarial completion orders; "
              "non-trivial = some waiting node actually ran",
         distribution=dist, samples=[{"graph": cases[0][0]["nodes"], "run": cases[0][1]}],
         traces_validated_against_impl=len(obs_all), disagreements_checked=res["n"])
